@@ -6,7 +6,8 @@ COMPONENTS = ["loopyord"]
 T4 = ["Loopy"]
 PROOF_MODULES = ["GrpcProofs.Properties.C02"]
 THEOREMS = ["GrpcProofs.C02." + t for t in (
-    "c02_holds", "refinement_invariant", "drained_complete", "no_panic")]
+    "c02_holds", "refinement_invariant", "drained_complete", "data_frames_consecutive", "wire_bytes_are_prefix",
+    "end_stream_once_and_last", "no_panic")]
 DESIGN_REF = "DESIGN.md section 8, C02"
 TECHNIQUE = ("Lean 4 refinement proof (writer's per-stream item queue = unsent suffix of the application byte stream; ghost byte offsets) by "
              "induction over the history, on top of the structural invariant Wf, about a line-for-line model of loopyWriter + T1 op-level "
